@@ -15,11 +15,13 @@ import (
 	"gosym/smt"
 )
 
+// Regular classes for nondetString. They are character-set supersets of the Kubernetes name syntaxes
+// (DNS-1123 label / subdomain, CamelCase kind): every valid name is a member, so a property shown for the
+// class holds for all valid names; the exact shapes (no leading '-', ...) made cvc5 time out.
 const (
-	reAlnum = `(re.union (re.range "a" "z") (re.range "0" "9"))`
-	reLabel = `(re.++ ` + reAlnum + ` (re.opt (re.++ (re.* (re.union ` + reAlnum + ` (str.to_re "-"))) ` + reAlnum + `)))`
-	reSubdomain = `(re.++ ` + reLabel + ` (re.* (re.++ (str.to_re ".") ` + reLabel + `)))`
-	reKind  = `(re.++ (re.range "A" "Z") (re.* (re.union (re.range "a" "z") (re.range "A" "Z") (re.range "0" "9"))))`
+	reLabel     = `(re.+ (re.union (re.range "a" "z") (re.range "0" "9") (str.to_re "-")))`
+	reSubdomain = `(re.+ (re.union (re.range "a" "z") (re.range "0" "9") (str.to_re "-") (str.to_re ".")))`
+	reKind      = `(re.++ (re.range "A" "Z") (re.* (re.union (re.range "a" "z") (re.range "A" "Z") (re.range "0" "9"))))`
 	rePrintable = `(re.* (re.range " " "~"))`
 )
 
@@ -33,6 +35,8 @@ func registerModels(e *Engine) {
 	registerSyncTimeModels(e)
 	registerK8sModels(e)
 	registerJSONModels(e)
+	registerSymStringModels(e)
+	registerRestfulModels(e)
 }
 
 // ---------------------------------------------------------------- harness primitives
@@ -105,11 +109,11 @@ func registerVerifModels(e *Engine) {
 		maxLen := int64(-1)
 		switch class {
 		case "dns1123label":
-			re, maxLen = reLabel, 63
+			re = reLabel
 		case "dns1123subdomain":
-			re, maxLen = reSubdomain, 253
+			re = reSubdomain
 		case "kind":
-			re, maxLen = reKind, 63
+			re = reKind
 		case "printable":
 			re = rePrintable
 		case "any":
@@ -595,4 +599,144 @@ func registerNetModels(e *Engine) {
 		return iface{}
 	}
 	// encoding/binary big endian helpers are plain byte code and are interpreted.
+}
+
+
+// ---------------------------------------------------------------- SMT models of string functions
+
+const splitUnroll = 6
+
+func registerSymStringModels(e *Engine) {
+	strT := func(fr *frame, v value) *smt.Term { return fr.toSym(v, types.String).T }
+	lenT := func(st *smt.Store, t *smt.Term) *smt.Term { return st.StrOp(smt.OStrLen, smt.Int, t) }
+	e.symModels["strings.ToLower"] = func(fr *frame, fn *ssa.Function, args []value) value {
+		return fromTerm(fr.p.st.StrOp(smt.OStrToLower, smt.Str, strT(fr, args[0])), types.String)
+	}
+	e.symModels["strings.Index"] = func(fr *frame, fn *ssa.Function, args []value) value {
+		st := fr.p.st
+		return fromTerm(st.StrOp(smt.OStrIndexOf, smt.Int, strT(fr, args[0]), strT(fr, args[1]), st.IntC(0)), types.Int)
+	}
+	e.symModels["strings.LastIndex"] = func(fr *frame, fn *ssa.Function, args []value) value {
+		st := fr.p.st
+		s := strT(fr, args[0])
+		sep, ok := args[1].(string)
+		if !ok || len(sep) != 1 {
+			fr.unmodelled("LastIndex with a symbolic or multi-character separator")
+		}
+		sepT := st.StrC(sep)
+		if !fr.p.branch(fr, nil, st.StrOp(smt.OStrContains, smt.Bool, s, sepT)) {
+			return -1
+		}
+		n := len(st.Vars)
+		h := st.Var(fmt.Sprintf("li%dh", n), smt.Str)
+		t := st.Var(fmt.Sprintf("li%dt", n), smt.Str)
+		fr.p.addPC(st.Eq(s, st.StrConcat(h, sepT, t)))
+		fr.p.addPC(st.Not(st.StrOp(smt.OStrContains, smt.Bool, t, sepT)))
+		// remember the decomposition so that s[:idx] folds to h
+		fr.p.sideTable[fmt.Sprintf("prefix:%d:%d", s.ID, lenT(st, h).ID)] = h
+		return fromTerm(lenT(st, h), types.Int)
+	}
+	concatParts := func(t *smt.Term) []*smt.Term {
+		if t.Op == smt.OStrConcat {
+			return t.Args
+		}
+		return []*smt.Term{t}
+	}
+	// splitFirst cuts s at the first occurrence of the constant separator, exploiting the concat structure:
+	// constant parts are searched directly, symbolic parts that cannot contain the separator (solver: unsat)
+	// are skipped, and only a part that may contain it is cut with fresh variables (part = h ++ sep ++ t, sep not in h).
+	splitFirst := func(fr *frame, s *smt.Term, sep string) (head, rest *smt.Term, found bool) {
+		st := fr.p.st
+		parts := concatParts(s)
+		var prefix []*smt.Term
+		sepT := st.StrC(sep)
+		for i, a := range parts {
+			if a.IsConst() {
+				if idx := strings.Index(a.S, sep); idx >= 0 {
+					head = st.StrConcat(append(append([]*smt.Term{}, prefix...), st.StrC(a.S[:idx]))...)
+					rest = st.StrConcat(append([]*smt.Term{st.StrC(a.S[idx+len(sep):])}, parts[i+1:]...)...)
+					return head, rest, true
+				}
+				prefix = append(prefix, a)
+				continue
+			}
+			if len(sep) != 1 {
+				fr.unmodelled("split of a symbolic string at a multi-character separator")
+			}
+			if fr.p.branch(fr, nil, st.StrOp(smt.OStrContains, smt.Bool, a, sepT)) {
+				n := len(st.Vars)
+				h := st.Var(fmt.Sprintf("sp%dh", n), smt.Str)
+				t := st.Var(fmt.Sprintf("sp%dt", n), smt.Str)
+				fr.p.addPC(st.Eq(a, st.StrConcat(h, sepT, t)))
+				fr.p.addPC(st.Not(st.StrOp(smt.OStrContains, smt.Bool, h, sepT)))
+				head = st.StrConcat(append(append([]*smt.Term{}, prefix...), h)...)
+				rest = st.StrConcat(append([]*smt.Term{t}, parts[i+1:]...)...)
+				return head, rest, true
+			}
+			prefix = append(prefix, a)
+		}
+		return nil, nil, false
+	}
+	split := func(fr *frame, s *smt.Term, sepV value, max int) value {
+		sep, ok := sepV.(string)
+		if !ok || sep == "" {
+			fr.unmodelled("split with a symbolic or empty separator")
+		}
+		var parts []value
+		rest := s
+		for i := 0; ; i++ {
+			if max > 0 && len(parts) == max-1 {
+				break
+			}
+			head, r2, found := splitFirst(fr, rest, sep)
+			if !found {
+				break
+			}
+			if i >= splitUnroll {
+				panic(abortPath{kind: "unwind", reason: fmt.Sprintf("strings.Split: more than %d parts @ %s", splitUnroll, fr.stack())})
+			}
+			rest = r2
+			parts = append(parts, fromTerm(head, types.String))
+		}
+		parts = append(parts, fromTerm(rest, types.String))
+		return parts
+	}
+	e.symModels["strings.Split"] = func(fr *frame, fn *ssa.Function, args []value) value {
+		return split(fr, strT(fr, args[0]), args[1], 0)
+	}
+	e.symModels["strings.SplitN"] = func(fr *frame, fn *ssa.Function, args []value) value {
+		n := int(fr.concreteInt(args[2]))
+		if n == 0 {
+			return []value(nil)
+		}
+		if n < 0 {
+			n = 0
+		}
+		return split(fr, strT(fr, args[0]), args[1], n)
+	}
+	// strconv.Atoi of a symbolic string: an arbitrary outcome (any int with nil error, or an error);
+	// an over-approximation that is sound for properties of what callers do with the result
+	e.symModels["strconv.Atoi"] = func(fr *frame, fn *ssa.Function, args []value) value {
+		st := fr.p.st
+		n := len(st.Vars)
+		fails := st.Var(fmt.Sprintf("atoi%dfails", n), smt.Bool)
+		if fr.p.branch(fr, nil, fails) {
+			return tuple{0, fr.p.eng.newErrorString("strconv.Atoi: parsing: invalid syntax")}
+		}
+		return tuple{sym{st.Var(fmt.Sprintf("atoi%dval", n), smt.BV(64)), types.Int}, iface{}}
+	}
+	e.symModels["strings.TrimSuffix"] = func(fr *frame, fn *ssa.Function, args []value) value {
+		st := fr.p.st
+		s, suf := strT(fr, args[0]), strT(fr, args[1])
+		has := st.StrOp(smt.OStrSuffixOf, smt.Bool, suf, s)
+		cut := st.StrOp(smt.OStrSubstr, smt.Str, s, st.IntC(0), st.IntBin(smt.OIntSub, lenT(st, s), lenT(st, suf)))
+		return fromTerm(st.Ite(has, cut, s), types.String)
+	}
+	e.symModels["strings.TrimPrefix"] = func(fr *frame, fn *ssa.Function, args []value) value {
+		st := fr.p.st
+		s, pre := strT(fr, args[0]), strT(fr, args[1])
+		has := st.StrOp(smt.OStrPrefixOf, smt.Bool, pre, s)
+		cut := st.StrOp(smt.OStrSubstr, smt.Str, s, lenT(st, pre), lenT(st, s))
+		return fromTerm(st.Ite(has, cut, s), types.String)
+	}
 }
